@@ -297,6 +297,15 @@ def extract(src, problems):
 
     def encode():
         ue = _need(enc.find('urlencode'), 'urlencode')
+        for fname in ('url_quote', 'quote_plus', 'urlencode'):
+            fn = _need(enc.find(fname), fname)
+            if fn.decorator_list:
+                raise Bad('%s is decorated (%s): the model has no cache or wrapper there'
+                          % (fname, ', '.join(ast.unparse(d) for d in fn.decorator_list)))
+        rebound = [t.id for st in enc.tree.body if isinstance(st, ast.Assign) for t in st.targets
+                   if isinstance(t, ast.Name) and t.id in ('url_quote', 'quote_plus', 'urlencode')]
+        if rebound:
+            raise Bad('%s rebound at module level' % rebound)
         names = [a.arg for a in ue.args.args]
         if names != ['query', 'doseq', 'quote_via'] or len(ue.args.defaults) != 2:
             raise Bad('urlencode signature')
